@@ -64,38 +64,182 @@ type Term struct {
 	ID   int
 }
 
+type tkey struct {
+	op         Op
+	w          uint8
+	k          uint64
+	name       string
+	n          int
+	a0, a1, a2 int
+}
+
 type TermCtx struct {
-	tab   map[string]*Term
-	terms []*Term
-	syms  []*Term
-	funs  map[string]string // uninterpreted function declarations: name -> decl text
-	T, F  *Term
+	tab     map[tkey]*Term
+	tabN    map[string]*Term // terms with more than 3 arguments
+	terms   []*Term
+	syms    []*Term
+	funs    map[string]string // uninterpreted function declarations: name -> decl text
+	T, F    *Term
+	evalVal []uint64
+	evalGen []uint32
+	gen     uint32
 }
 
 func NewTermCtx() *TermCtx {
-	c := &TermCtx{tab: map[string]*Term{}, funs: map[string]string{}}
+	c := &TermCtx{tab: make(map[tkey]*Term, 1024), tabN: map[string]*Term{}, funs: map[string]string{}}
 	c.T = c.mk(&Term{Op: OConst, W: 0, K: 1})
 	c.F = c.mk(&Term{Op: OConst, W: 0, K: 0})
 	return c
 }
 
 func (c *TermCtx) mk(t *Term) *Term {
-	var sb strings.Builder
-	fmt.Fprintf(&sb, "%d/%d/%d/%s", t.Op, t.W, t.K, t.Name)
-	for _, a := range t.A {
-		fmt.Fprintf(&sb, ",%d", a.ID)
+	if len(t.A) <= 3 {
+		k := tkey{op: t.Op, w: t.W, k: t.K, name: t.Name, n: len(t.A), a0: -1, a1: -1, a2: -1}
+		if len(t.A) > 0 {
+			k.a0 = t.A[0].ID
+		}
+		if len(t.A) > 1 {
+			k.a1 = t.A[1].ID
+		}
+		if len(t.A) > 2 {
+			k.a2 = t.A[2].ID
+		}
+		if x, ok := c.tab[k]; ok {
+			return x
+		}
+		t.ID = len(c.terms)
+		c.terms = append(c.terms, t)
+		c.tab[k] = t
+	} else {
+		var sb strings.Builder
+		fmt.Fprintf(&sb, "%d/%d/%d/%s", t.Op, t.W, t.K, t.Name)
+		for _, a := range t.A {
+			fmt.Fprintf(&sb, ",%d", a.ID)
+		}
+		k := sb.String()
+		if x, ok := c.tabN[k]; ok {
+			return x
+		}
+		t.ID = len(c.terms)
+		c.terms = append(c.terms, t)
+		c.tabN[k] = t
 	}
-	k := sb.String()
-	if x, ok := c.tab[k]; ok {
-		return x
-	}
-	t.ID = len(c.terms)
-	c.terms = append(c.terms, t)
-	c.tab[k] = t
 	if t.Op == OSym {
 		c.syms = append(c.syms, t)
 	}
 	return t
+}
+
+// urange returns conservative unsigned bounds of a bit-vector term.
+func urange(t *Term, depth int) (uint64, uint64) {
+	m := mask(t.W)
+	if t.W == 0 {
+		return 0, 1
+	}
+	if depth > 12 {
+		return 0, m
+	}
+	switch t.Op {
+	case OConst:
+		return t.K, t.K
+	case OZext:
+		return urange(t.A[0], depth+1)
+	case OExtract:
+		if t.K == 0 {
+			lo, hi := urange(t.A[0], depth+1)
+			if hi <= m {
+				return lo, hi
+			}
+		}
+		return 0, m
+	case OBand:
+		_, h0 := urange(t.A[0], depth+1)
+		_, h1 := urange(t.A[1], depth+1)
+		if h1 < h0 {
+			h0 = h1
+		}
+		return 0, h0
+	case OBor, OBxor:
+		_, h0 := urange(t.A[0], depth+1)
+		_, h1 := urange(t.A[1], depth+1)
+		if h1 > h0 {
+			h0 = h1
+		}
+		// smallest all-ones mask covering h0
+		r := uint64(0)
+		for r < h0 {
+			r = r<<1 | 1
+		}
+		if r > m {
+			r = m
+		}
+		lo := uint64(0)
+		if t.Op == OBor {
+			l0, _ := urange(t.A[0], depth+1)
+			l1, _ := urange(t.A[1], depth+1)
+			lo = l0
+			if l1 > lo {
+				lo = l1
+			}
+		}
+		return lo, r
+	case OIte:
+		l1, h1 := urange(t.A[1], depth+1)
+		l2, h2 := urange(t.A[2], depth+1)
+		if l2 < l1 {
+			l1 = l2
+		}
+		if h2 > h1 {
+			h1 = h2
+		}
+		return l1, h1
+	case OLshr:
+		if t.A[1].IsConst() {
+			lo, hi := urange(t.A[0], depth+1)
+			sh := t.A[1].K
+			if sh >= uint64(t.W) {
+				return 0, 0
+			}
+			return lo >> sh, hi >> sh
+		}
+		_, hi := urange(t.A[0], depth+1)
+		return 0, hi
+	case OAdd:
+		l0, h0 := urange(t.A[0], depth+1)
+		l1, h1 := urange(t.A[1], depth+1)
+		if h0 <= m-h1 && h0+h1 >= h0 { // no overflow
+			return l0 + l1, h0 + h1
+		}
+	case OUdiv:
+		if t.A[1].IsConst() && t.A[1].K != 0 {
+			lo, hi := urange(t.A[0], depth+1)
+			return lo / t.A[1].K, hi / t.A[1].K
+		}
+	case OUrem:
+		if t.A[1].IsConst() && t.A[1].K != 0 {
+			return 0, t.A[1].K - 1
+		}
+	case OShl:
+		if t.A[1].IsConst() {
+			_, hi := urange(t.A[0], depth+1)
+			sh := t.A[1].K
+			if sh < uint64(t.W) && hi <= m>>sh {
+				return 0, hi << sh
+			}
+		}
+	}
+	return 0, m
+}
+
+// isConstTree: a constant, or an ite whose branches are const trees.
+func isConstTree(t *Term, depth int) bool {
+	if t.Op == OConst {
+		return true
+	}
+	if t.Op != OIte || depth > 8 {
+		return false
+	}
+	return isConstTree(t.A[1], depth+1) && isConstTree(t.A[2], depth+1)
 }
 
 func mask(w uint8) uint64 {
@@ -308,12 +452,12 @@ func (c *TermCtx) Eq(a, b *Term) *Term {
 			return c.Not(a)
 		}
 	}
-	// ite(c, k1, k2) == k  with constants
-	if b.IsConst() && a.Op == OIte && a.A[1].IsConst() && a.A[2].IsConst() {
-		return c.Ite(a.A[0], c.Bool(a.A[1].K == b.K), c.Bool(a.A[2].K == b.K))
+	// ite-tree with constant leaves == constant: push the comparison to the leaves
+	if b.IsConst() && a.Op == OIte && isConstTree(a, 0) {
+		return c.Ite(a.A[0], c.Eq(a.A[1], b), c.Eq(a.A[2], b))
 	}
-	if a.IsConst() && b.Op == OIte && b.A[1].IsConst() && b.A[2].IsConst() {
-		return c.Ite(b.A[0], c.Bool(b.A[1].K == a.K), c.Bool(b.A[2].K == a.K))
+	if a.IsConst() && b.Op == OIte && isConstTree(b, 0) {
+		return c.Ite(b.A[0], c.Eq(b.A[1], a), c.Eq(b.A[2], a))
 	}
 	// zext(x) == const
 	if b.IsConst() && a.Op == OZext {
@@ -352,6 +496,38 @@ func (c *TermCtx) cmp(op Op, a, b *Term) *Term {
 	}
 	if a == b {
 		return c.Bool(op == OUle || op == OSle)
+	}
+	// canonical form: a <= b  ==  !(b < a)
+	if op == OUle {
+		return c.Not(c.cmp(OUlt, b, a))
+	}
+	if op == OSle {
+		return c.Not(c.cmp(OSlt, b, a))
+	}
+	if op == OUlt {
+		alo, ahi := urange(a, 0)
+		blo, bhi := urange(b, 0)
+		if ahi < blo {
+			return c.T
+		}
+		if alo >= bhi {
+			return c.F
+		}
+	}
+	if op == OSlt {
+		// both provably non-negative: same as unsigned
+		_, ahi := urange(a, 0)
+		_, bhi := urange(b, 0)
+		top := uint64(1) << (a.W - 1)
+		if ahi < top && bhi < top {
+			return c.cmp(OUlt, a, b)
+		}
+	}
+	if b.IsConst() && a.Op == OIte && isConstTree(a, 0) {
+		return c.Ite(a.A[0], c.cmp(op, a.A[1], b), c.cmp(op, a.A[2], b))
+	}
+	if a.IsConst() && b.Op == OIte && isConstTree(b, 0) {
+		return c.Ite(b.A[0], c.cmp(op, a, b.A[1]), c.cmp(op, a, b.A[2]))
 	}
 	switch op {
 	case OUlt:
@@ -499,6 +675,12 @@ func (c *TermCtx) Bin(op Op, a, b *Term) *Term {
 			return c.BV(v, a.W)
 		}
 	}
+	if b.IsConst() && a.Op == OIte && isConstTree(a, 0) {
+		return c.Ite(a.A[0], c.Bin(op, a.A[1], b), c.Bin(op, a.A[2], b))
+	}
+	if a.IsConst() && b.Op == OIte && isConstTree(b, 0) {
+		return c.Ite(b.A[0], c.Bin(op, a, b.A[1]), c.Bin(op, a, b.A[2]))
+	}
 	switch op {
 	case OAdd:
 		if a.IsConst() && a.K == 0 {
@@ -558,6 +740,9 @@ func (c *TermCtx) Bin(op Op, a, b *Term) *Term {
 		if b.IsConst() && b.K == 0 {
 			return a
 		}
+		if op == OBor && b.IsConst() && b.K == mask(a.W) {
+			return b
+		}
 		if a == b {
 			if op == OBor {
 				return a
@@ -612,6 +797,9 @@ func (c *TermCtx) Zext(a *Term, w uint8) *Term {
 	if a.Op == OZext {
 		return c.Zext(a.A[0], w)
 	}
+	if a.Op == OIte && isConstTree(a, 0) {
+		return c.Ite(a.A[0], c.Zext(a.A[1], w), c.Zext(a.A[2], w))
+	}
 	return c.mk(&Term{Op: OZext, W: w, A: []*Term{a}})
 }
 
@@ -638,6 +826,19 @@ func (c *TermCtx) Extract(a *Term, lo uint8, w uint8) *Term {
 	}
 	if a.IsConst() {
 		return c.BV(a.K>>lo, w)
+	}
+	if a.Op == OIte && isConstTree(a, 0) {
+		return c.Ite(a.A[0], c.Extract(a.A[1], lo, w), c.Extract(a.A[2], lo, w))
+	}
+	if (a.Op == OBand || a.Op == OBor || a.Op == OBxor) && a.A[1].IsConst() {
+		// bitwise op with a constant commutes with extraction
+		return c.Bin(a.Op, c.Extract(a.A[0], lo, w), c.BV(a.A[1].K>>lo, w))
+	}
+	if (a.Op == OZext || a.Op == OSext) && lo+w <= a.A[0].W {
+		return c.Extract(a.A[0], lo, w)
+	}
+	if a.Op == OExtract {
+		return c.Extract(a.A[0], lo+uint8(a.K), w)
 	}
 	if (a.Op == OZext || a.Op == OSext) && lo == 0 && w <= a.A[0].W {
 		return c.Extract(a.A[0], 0, w)
@@ -672,9 +873,30 @@ func (c *TermCtx) Concat(hi, lo *Term) *Term {
 // Model maps symbol names to values. Missing symbols evaluate to 0.
 type Model map[string]uint64
 
+// Eval evaluates t under m. The memo argument is kept for API compatibility;
+// memoisation uses generation-stamped slices inside the context.
 func (c *TermCtx) Eval(t *Term, m Model, memo map[int]uint64) (uint64, bool) {
-	if v, ok := memo[t.ID]; ok {
-		return v, true
+	c.gen++
+	if c.gen == 0 {
+		for i := range c.evalGen {
+			c.evalGen[i] = 0
+		}
+		c.gen = 1
+	}
+	if len(c.evalVal) < len(c.terms) {
+		n := len(c.terms) + 1024
+		nv := make([]uint64, n)
+		ng := make([]uint32, n)
+		copy(nv, c.evalVal)
+		copy(ng, c.evalGen)
+		c.evalVal, c.evalGen = nv, ng
+	}
+	return c.eval(t, m)
+}
+
+func (c *TermCtx) eval(t *Term, m Model) (uint64, bool) {
+	if c.evalGen[t.ID] == c.gen {
+		return c.evalVal[t.ID], true
 	}
 	var r uint64
 	switch t.Op {
@@ -687,7 +909,7 @@ func (c *TermCtx) Eval(t *Term, m Model, memo map[int]uint64) (uint64, bool) {
 	default:
 		var av [3]uint64
 		for i, a := range t.A {
-			v, ok := c.Eval(a, m, memo)
+			v, ok := c.eval(a, m)
 			if !ok {
 				return 0, false
 			}
@@ -736,7 +958,8 @@ func (c *TermCtx) Eval(t *Term, m Model, memo map[int]uint64) (uint64, bool) {
 			r = v
 		}
 	}
-	memo[t.ID] = r
+	c.evalVal[t.ID] = r
+	c.evalGen[t.ID] = c.gen
 	return r, true
 }
 
